@@ -350,7 +350,10 @@ Proof.
   destruct (connect v (own_counts scc rc) (own_counts scs rs) md) as [o'|] eqn:Hc; [|discriminate H].
   destruct (new_writer v scc rc o') as [[tw d]|] eqn:Hw; [|discriminate H].
   destruct (server_open v scs rs d) as [tr|] eqn:Hs; [|discriminate H].
-  inversion H as [[E1 E2 E3]]. subst o' d.
+  pose proof (f_equal (fun x => match x with OStream a _ _ => Some a | _ => None end) H) as E1.
+  pose proof (f_equal (fun x => match x with OStream _ b _ => b | _ => None end) H) as E2.
+  pose proof (f_equal (fun x => match x with OStream _ _ c => c | _ => false end) H) as E3.
+  cbv beta iota in E1, E2, E3. injection E1 as E1. subst o' d.
   apply etree_eqb_eq in E3. subst tr.
   pose proof (server_open_any_current v scc rc scs rs md o tw descr tw Hc Hw Hs) as Hcur.
   exists tw. split; [reflexivity|]. split; [exact Hw|]. split; [exact Hcur|].
@@ -406,9 +409,10 @@ Proof.
     + assert (Hw2 : new_writer v scc root (mkWopts (Some cs) true (o_maxdict o)) = Some (t, descr)).
       { destruct o as [os od om]. cbn [o_schema o_maxdict] in *. subst os.
         unfold new_writer in Hw |- *. cbn [o_schema o_descr] in *. exact Hw. }
-      rewrite (new_writer_with_ancestor_schema v scc scc root (o_maxdict o) Hc (evolves_refl scc) Hr Hok) in Hw2
+      assert (Hn : is_incompat (compat3 v (own_counts scc root) (own_counts scc root)) = false)
         by (rewrite compat3_refl; reflexivity).
-      inversion Hw2. reflexivity.
+      pose proof (new_writer_with_ancestor_schema v scc scc root (o_maxdict o) Hc (evolves_refl scc) Hr Hok Hn) as Hn2.
+      unfold cs in Hw2. rewrite Hn2 in Hw2. injection Hw2 as E _. symmetry. exact E.
   - apply server_open_decodes_all.
     exact (server_open_any_current v scc root scs root md o t descr t Hconn Hw Hs).
 Qed.
